@@ -326,7 +326,7 @@ wei_func(double *p, int nparam, void *dptr)
   logL = 0.;
   for (i = 0; i < data->n; i++)
     {
-      if (tau < 1. && data->x[i] == data->mu) continue; /* hack: disallow infinity */
+      if (tau != 1. && data->x[i] == data->mu) continue; /* hack: disallow +infinity (tau<1) and -infinity (tau>1): mu is pinned to the smallest sample, whose density is infinite resp. zero */
       logL += esl_wei_logpdf(data->x[i], data->mu, lambda, tau);
     }
   return -logL;			/* goal: minimize NLL */
